@@ -289,17 +289,27 @@ struct Interp {
         first_access_done();
         return r;
     }
-    bool at_end() { return it == List::end_iterator(); }
+    bool at_end()
+    {
+        bool a = (it == List::end_iterator());
+        bool b = (List::end_iterator() == it);  // the comparison exists in both directions
+        MC_CHECK(a == b && a == !(it != List::end_iterator()) && a == !(List::end_iterator() != it), "iterator-compare",
+                 "iterator / end comparisons disagree");
+        return a;
+    }
     void step()
     {
 #ifdef MODE_C14
         noblock_begin("rcu read-side: iterator advance", 8);
 #endif
-        ++it;
+        // both increment forms of the iterators are part of the API
+        if ((nsteps++ & 1) == 0) ++it;
+        else it++;
 #ifdef MODE_C14
         noblock_end();
 #endif
     }
+    int nsteps = 0;
 
     void run_op(const Op& o)
     {
